@@ -12,6 +12,7 @@ import (
 	"encoding/hex"
 	"encoding/json"
 	"fmt"
+	"io"
 	"os"
 	"path/filepath"
 	"strings"
@@ -141,6 +142,20 @@ func newEncoder(enc string) ttlv.Encoder {
 	}
 	return ttlv.NewTTLVEncoder()
 }
+
+// memStream feeds a byte slice to a ttlv.Stream.
+type memStream struct{ data []byte }
+
+func (m *memStream) Read(p []byte) (int, error) {
+	if len(m.data) == 0 {
+		return 0, io.EOF
+	}
+	n := copy(p, m.data)
+	m.data = m.data[n:]
+	return n, nil
+}
+func (m *memStream) Write(p []byte) (int, error) { return len(p), nil }
+func (m *memStream) Close() error                { return nil }
 
 func marshalFn(enc string, v any) []byte {
 	switch enc {
@@ -276,7 +291,7 @@ func Spec() *core.Spec {
 			"H: reused cleared encoders driven through seeded sequences mixing versions, headerless payloads and formats, and single decoders fed several concatenated items. All results must equal R's; race reports with a library frame are violations. " +
 			"XML/JSON inputs with enumeration names; package-level Marshal functions; panicking-and-recovered encodes inside histories; distinct = distinct (process kind, goroutine, first-use order) executions",
 		Assumptions: []string{"results are compared as digests of the output bytes (encode) or of the reference layout of the decoded value (decode)"},
-		Required:    []string{"results_compared", "results_compared_with_fresh_process", "cold_process_goroutines", "history_steps", "poisoned_encodes_recovered", "poisoned_reused_encoders"},
+		Required:    []string{"results_compared", "results_compared_with_fresh_process", "cold_process_goroutines", "history_steps", "poisoned_encodes_recovered", "poisoned_reused_encoders", "stream_groups_decoded"},
 		EvalCounter: "results_compared",
 		RaceVerdict: func(r core.RaceReport) (string, bool) {
 			a, b := core.RaceLibFrames(r)
@@ -378,6 +393,38 @@ func Spec() *core.Spec {
 						for _, idx := range rr.Perm(len(cases)) {
 							k := &cases[idx]
 							steps++
+							if steps%23 == 5 {
+								// several binary messages arrive on ONE stream; each is decoded by Recv, kept, and looked at only after
+								// the last one has been received
+								var group []*kase
+								for j := 0; j < len(cases) && len(group) < 3; j++ {
+									p := &cases[(idx+j)%len(cases)]
+									if p.decode && p.enc == "ttlv" && p.target.Tag == 0 && strings.HasSuffix(p.target.Name, "Message") {
+										group = append(group, p)
+									}
+								}
+								if len(group) >= 2 {
+									var all []byte
+									for _, p := range group {
+										all = append(all, p.data...)
+									}
+									func() {
+										defer func() { recover() }()
+										st := ttlv.NewStream(&memStream{data: all}, 0)
+										vals := make([]any, len(group))
+										for gi, p := range group {
+											vals[gi] = p.target.New()
+											if err := st.Recv(vals[gi]); err != nil {
+												return
+											}
+										}
+										for gi, p := range group {
+											record(p.id, decodedDigest(p, vals[gi]))
+										}
+										c.Count("stream_groups_decoded", 1)
+									}()
+								}
+							}
 							if steps%17 == 9 {
 								// the same accident on one of the goroutine's own long-lived encoders (not the XML one: its Clear
 								// refuses an unfinished document); the encoder is cleared before every later use, as always
